@@ -179,7 +179,56 @@ func (p *Pkg) orderTable() (v *types.Var, groups [][]string, lit ast.Expr, err e
 			}
 		}
 	}
+	if len(found) == 0 && vocab[p.Key].Order != "fixed" {
+		return nil, nil, nil, nil
+	}
 	if len(found) == 0 {
+		// a flat list of all abbreviations in specification order (the group
+		// boundaries are then constants of the parser, checked by the automaton)
+		var flat []string
+		for _, g := range vocab[p.Key].Groups {
+			for _, m := range g.Metrics {
+				flat = append(flat, m.Abv)
+			}
+		}
+		for _, f := range p.P.Syntax {
+			for _, d := range f.Decls {
+				gd, ok := d.(*ast.GenDecl)
+				if !ok || gd.Tok != token.VAR {
+					continue
+				}
+				for _, sp := range gd.Specs {
+					vs := sp.(*ast.ValueSpec)
+					for i, nm := range vs.Names {
+						o, _ := p.Info.Defs[nm].(*types.Var)
+						if o == nil || !isStrSeq(o.Type()) || i >= len(vs.Values) {
+							continue
+						}
+						lv, ok := p.listValue(vs.Values[i])
+						if !ok || lv.K != VList || len(lv.T) != len(flat) {
+							continue
+						}
+						same := true
+						for j, e := range lv.T {
+							if e.K != VStr || e.S != flat[j] {
+								same = false
+							}
+						}
+						if same {
+							var gs [][]string
+							for _, g := range vocab[p.Key].Groups {
+								var row []string
+								for _, m := range g.Metrics {
+									row = append(row, m.Abv)
+								}
+								gs = append(gs, row)
+							}
+							return o, gs, vs.Values[i], nil
+						}
+					}
+				}
+			}
+		}
 		return nil, nil, nil, nil
 	}
 	if len(found) > 1 {
